@@ -542,11 +542,16 @@ func genXreq(r *rng.R, last bool) xreq {
 	case 1, 2, 3:
 		add(r.Pick([]string{"User-Agent", "user-agent"}), "curl/8.0 (x)")
 	}
-	switch r.Intn(8) {
-	case 0:
+	switch r.Intn(24) {
+	case 0, 1, 2:
 		add("Accept-Encoding", "gzip, br")
-	case 1:
+	case 3, 4, 5:
 		add("Accept-Encoding", "identity")
+	case 6:
+		add("Accept-Encoding", "")
+	}
+	if r.Chance(1, 30) {
+		add("User-Agent", "extra-agent/1.0")
 	}
 	if r.Chance(1, 12) {
 		add("Range", "bytes=0-9")
@@ -673,6 +678,8 @@ func xcorpus() []xconn {
 		one("U", xreq{Method: "PUT", Target: "http://{O}/big", Proto: "HTTP/1.1", Fields: []g01rig.Field{h}, Framing: "cl", BodyLen: 70000, BodySeed: 9}),
 		one("D", xreq{Method: "GET", Target: "/ws", Proto: "HTTP/1.1", Fields: []g01rig.Field{h, {"Connection", "Upgrade"}, {"Upgrade", "websocket"}, {"Sec-WebSocket-Key", "x"}}, Framing: "none"}),
 		one("D", xreq{Method: "GET", Target: "/x", Proto: "HTTP/1.1", Fields: []g01rig.Field{h, {"Connection", "x-a, keep-alive"}, {"X-A", "1"}, {"Keep-Alive", "timeout=5"}, {"Proxy-Authorization", "Basic Zm9vOmJhcg=="}, {"TE", "trailers"}, {"X-B", "2"}}, Framing: "none"}),
+		one("D", xreq{Method: "GET", Target: "/two-user-agents", Proto: "HTTP/1.1", Fields: []g01rig.Field{h, {"User-Agent", "first/1.0"}, {"User-Agent", "second/2.0"}}, Framing: "none"}),
+		one("D", xreq{Method: "GET", Target: "/empty-accept-encoding", Proto: "HTTP/1.1", Fields: []g01rig.Field{h, {"Accept-Encoding", ""}}, Framing: "none"}),
 		one("D", xreq{Method: "GET", Target: "/pragma", Proto: "HTTP/1.1", Fields: []g01rig.Field{h, {"Pragma", "no-cache"}}, Framing: "none"}),
 		one("D", xreq{Method: "GET", Target: "/tab", Proto: "HTTP/1.1", Fields: []g01rig.Field{h, {"Connection", "keep-alive,\tX-A"}, {"Connection", "x-b\t, X-Custom-Id"}, {"X-A", "1"}, {"X-B", "2"}, {"X-Custom-Id", "3"}, {"Accept", "kept"}}, Framing: "none"}),
 		one("D", xreq{Method: "GET", Target: "/x{y}?q={z}", Proto: "HTTP/1.1", Fields: []g01rig.Field{h}, Framing: "none"}),
